@@ -1030,3 +1030,60 @@ Proof.
   destruct S as [S | [S | [S | [S | [S | [S | S]]]]]]; subst cd; cbn [Z.pow Z.pow_pos Pos.iter Z.mul Pos.mul];
     (destruct (_ <? _) eqn:L; [apply Z.ltb_lt in L | apply Z.ltb_ge in L]); Z.div_mod_to_equations; lia.
 Qed.
+
+(* ---------------------------------------------------------------- round 6: the row hypotheses of the ldr / str specification are
+   DISCHARGED for every instruction of the BaseLdSt encoding (reflection over all instruction rows of the dumped tables) *)
+Lemma ldst_rows_wf_all :
+  forallb (fun id => match a64_ldst_row_at id with
+                     | RRow r => (l2_shift r =? 0) && (l2_hi r =? a64c_zr) && (l2_allowed r =? l_allowed r) && (0 <=? l_ushift r) && (l_ushift r <=? 3)
+                     | _ => true
+                     end) (upto (a64c_inst_id_count - 1)) = true.
+Proof. vm_compute. reflexivity. Qed.
+
+Lemma ldst_row_wf : forall inst_id r, 0 <= inst_id -> a64_ldst_row inst_id = RRow r ->
+  l2_shift r = 0 /\ l2_hi r = a64c_zr /\ l2_allowed r = l_allowed r /\ 0 <= l_ushift r <= 3.
+Proof.
+  intros id r H0 R. unfold a64_ldst_row in R.
+  assert (B : 0 <= a64_norm_id id <= a64c_inst_id_count - 1).
+  { unfold a64_norm_id. destruct (a64c_inst_id_count <=? id) eqn:E; [vm_compute; split; discriminate |]. apply Z.leb_gt in E. lia. }
+  pose proof ldst_rows_wf_all as A. rewrite forallb_forall in A. specialize (A _ (in_upto _ _ B)). rewrite R in A.
+  repeat (apply andb_true_iff in A; destruct A as [A ?]).
+  repeat match goal with H : (_ =? _) = true |- _ => apply Z.eqb_eq in H | H : (_ <=? _) = true |- _ => apply Z.leb_le in H end.
+  auto.
+Qed.
+
+Lemma imm_shift_range : forall r m, 0 <= l_ushift r <= 3 -> 0 <= a64_imm_shift r m <= 4.
+Proof.
+  intros r m H. unfold a64_imm_shift. destruct (l_ushift r =? 2).
+  - change 1 with (Z.ones 1). rewrite Z.land_ones by lia. pose proof (Z.mod_pos_bound (a64_gp_x (l_allowed r) (a_rtype m)) (2 ^ 1) ltac:(lia)). change (2 ^ 1) with 2 in *. lia.
+  - rewrite Z.land_0_r. lia.
+Qed.
+
+(* ldr / str / ldrb / ldrh / ldrsb / ldrsh / ldrsw / strb / strh `[Xn, #off]` - EVERY instruction of the encoding, EVERY 32-bit
+   offset, no hypothesis about the instruction tables: with a data register the instruction takes and a Gp64 base, the
+   instruction is accepted iff off is a multiple of the access size inside the scaled uimm12 range or lies in the simm9 range,
+   and is refused with kInvalidDisplacement otherwise *)
+Theorem a64_ldst_imm_offset_inst_spec : forall inst_id m r,
+  0 <= inst_id -> a64_ldst_row inst_id = RRow r ->
+  a64_gp_type_ok (l_allowed r) (a_rtype m) = true -> a64_check_gp_id (a_rid m) a64c_zr = true ->
+  a_btype m = a64c_reg_type_gp64 -> a_bid m <= 31 -> a_itype m = 0 -> a_mode m = 0 -> - 2 ^ 31 <= a_off m < 2 ^ 31 ->
+  let s := a64_imm_shift r m in
+  let fits := (0 <= a_off m < 4096 * 2 ^ s /\ (a_off m) mod 2 ^ s = 0) \/ (-256 <= a_off m <= 255) in
+  (a64_ldst inst_id m = MOk 4 0 <-> fits) /\ (~ fits -> a64_ldst inst_id m = MErr kInvalidDisplacement).
+Proof.
+  intros id m r H0 R T G Hb Hbid Hi Hm Ho s fits.
+  destruct (ldst_row_wf id r H0 R) as [W1 [W2 [W3 W4]]].
+  pose proof (imm_shift_range r m W4) as Hs.
+  assert (T2 : a64_gp_type_ok (l2_allowed r) (a_rtype m) = true) by (rewrite W3; exact T).
+  assert (G2 : a64_check_gp_id (a_rid m) (l2_hi r) = true) by (rewrite W2; exact G).
+  destruct (a64_ldst_imm_offset_spec r m T G T2 G2 W1 Hb Hbid Hi Hm Ho Hs) as [P N].
+  unfold a64_ldst. rewrite R. fold s in P, N. fold fits in P, N. split; [split |].
+  - intros E.
+    assert (D : fits \/ ~ fits).
+    { unfold fits.
+      destruct (Z_le_dec 0 (a_off m)), (Z_lt_dec (a_off m) (4096 * 2 ^ s)), (Z.eq_dec ((a_off m) mod 2 ^ s) 0),
+               (Z_le_dec (-256) (a_off m)), (Z_le_dec (a_off m) 255); tauto. }
+    destruct D as [F | F]; [exact F | rewrite (N F) in E; discriminate E].
+  - exact P.
+  - exact N.
+Qed.
